@@ -317,6 +317,24 @@ def e_image_depth(inp):
     return list(dep(d, mask))
 
 
+def weights_uncertainty(arr):
+    """An NDData uncertainty of uncertainty_type 'weights' (extract_stars uses such an array directly as weights)."""
+    from astropy.nddata import NDUncertainty
+
+    class WeightsUncertainty(NDUncertainty):
+        @property
+        def uncertainty_type(self):
+            return 'weights'
+
+        def _data_unit_to_uncertainty_unit(self, value):
+            return None
+
+        def _propagate_add(self, other_uncert, result_data, correlation):
+            return None
+        _propagate_subtract = _propagate_multiply = _propagate_divide = _propagate_add
+    return WeightsUncertainty(arr, copy=False)
+
+
 def e_epsf(inp):
     from astropy.nddata import NDData, StdDevUncertainty
     from astropy.table import Table
@@ -365,6 +383,7 @@ ENTRIES = {
     'morphology': dict(f=e_morphology, uses=['data', 'mask']),
     'image_depth': dict(f=e_image_depth, uses=['data', 'mask']),
     'epsf': dict(f=e_epsf, uses=['data', 'error', 'mask']),
+    'epsf_weights': dict(f=e_epsf, uses=['data', 'error', 'mask']),
 }
 
 
